@@ -535,7 +535,9 @@ func withUSDT(w *World) {
 }
 
 // rewardWorld: WD (stake period 2, BIP/USDT pool) with the knobs of the block-reward rule (C28) in the world's name:
-//   WR/p=10/pbip=905000/pusdt=10000/off=1/last=40/ptime=3600/em=cap-250
+//
+//	WR/p=10/pbip=905000/pusdt=10000/off=1/last=40/ptime=3600/em=cap-250
+//
 // p: pool price in thousandths USDT per BIP (pool = 1 000 000 BIP : p*1000 USDT); pbip/pusdt: reserves remembered by the
 // previous price record (default: the pool's); off/last: its switched-off flag and last reward (BIP); ptime: its age in
 // seconds at the first block (default: never updated); em: emission at genesis in BIP, or cap-<n>.
